@@ -17,14 +17,16 @@ SID, MAJ, EGID = 0x4455, 2, 7
 
 
 def ep_opt(n):
+    """endpoint n: odd = IPv4, even = IPv6; endpoints n and n + 2 with n % 4 in (1, 2) share a host and differ in the port
+    only (two subscribers on one machine) - the port identifies the endpoint"""
+    h = n - 2 if n % 4 in (3, 0) else n
     if n % 2:
-        return H.IPv4EndpointOption(address=ipaddress.IPv4Address("10.0.0.%d" % n), l4proto=H.L4Protocols.UDP, port=5000 + n)
-    return H.IPv6EndpointOption(address=ipaddress.IPv6Address("fd00::%x" % n), l4proto=H.L4Protocols.UDP, port=5000 + n)
+        return H.IPv4EndpointOption(address=ipaddress.IPv4Address("10.0.0.%d" % h), l4proto=H.L4Protocols.UDP, port=5000 + n)
+    return H.IPv6EndpointOption(address=ipaddress.IPv6Address("fd00::%x" % h), l4proto=H.L4Protocols.UDP, port=5000 + n)
 
 
 def ep_of_addr(addr):
-    host = addr[0]
-    return int(host.rsplit(".", 1)[1]) if "." in host else int(host.rsplit(":", 1)[1], 16)
+    return addr[1] - 5000
 
 
 class Tr:
